@@ -71,6 +71,8 @@ class Engine(Exec):
             r = self.buf_spec(st, fr, name, [self.intern_name(a) if isinstance(a, str) else a for a in args])
             if r is not NotImplemented:
                 return r
+        if name.endswith('.warn') or name == 'warn':
+            return None
         if name == 'bufview':
             return BufView(self.as_ref(args[0]))
         if name == 'name_id':
@@ -439,6 +441,11 @@ class Engine(Exec):
                 result = fresh('ret_' + qual.split('.')[-1], {'int': 'int', 'float': 'real', 'bool': 'bool'}[c.returns])
             post_st.env['result'] = result
         cfr.spec_only = True
+        selfobj = env.get('self')
+        for an, ex in c.sets.items():
+            post_st.objs = st.objs
+            st.objs[selfobj.oid][an] = self.ev_clause_val(ex, post_st, cfr)
+        post_st.objs = st.objs
         for cl in c.ensures:
             f = self.ev_clause(cl, post_st, cfr)
             st.assume(f)
